@@ -31,7 +31,9 @@ rule = ("scripts = 'n begin', node ops, 'n end' (destroy everything, every byte 
 assumptions = [
     "calls respect the GNode-style preconditions of the insert functions: the inserted node is a root without "
     "siblings and not an ancestor of the position (both drivers skip other calls as 'precond'); "
-    "mpt_node_move is called with lists from different top-level structures; the list reference handed to it is the "
+    "mpt_node_move is called with lists from different top-level structures (proved and run) or with two sibling lists of "
+    "ONE structure none of which lies inside the other's moving part (run only: the destination is not below a source "
+    "element from `from` on, the source is not below or in the destination list); the list reference handed to it is the "
     "parent's child link when the node is a first child and a variable of the driver otherwise, its value after the "
     "call (first element that stayed, or NULL) is part of the compared verdict (the model does not store the caller's "
     "variable, its line carries the specification's value)",
@@ -201,6 +203,13 @@ class Mirror:
             self.parent[c] = a
         for c in self.kids[b]:
             self.parent[c] = b
+
+    def can_move_same(self, a, b):
+        src = self.sibs(a)
+        part = src[src.index(a):]
+        if any(b in self.subtree(x) for x in part):
+            return False
+        return not any(a in self.subtree(y) for y in self.sibs(b))
 
     def move(self, a, b):
         src = self.sibs(a)
@@ -387,7 +396,7 @@ def _random_history(r, length):
                     m.after(args[0], args[1])
                 elif w[1] == "destroy" and args[0] in m.name:
                     m.destroy(args[0])
-                elif w[1] == "move" and args[0] in m.name and args[1] in m.name and m.top_of(args[0]) != m.top_of(args[1]):
+                elif w[1] == "move" and args[0] in m.name and args[1] in m.name and (m.top_of(args[0]) != m.top_of(args[1]) or m.can_move_same(args[0], args[1])):
                     m.move(args[0], args[1])
                 elif w[1] == "add" and args[0] in m.name and args[1] in m.name and m.can_place(args[0], args[1]):
                     m.add(args[0], 0, args[1], True)
@@ -426,12 +435,17 @@ def _random_history(r, length):
         elif kind == "move":
             a = pick(al)
             cand = [b for b in al if m.top_of(b) != m.top_of(a)]
+            if r.random() < 0.4:
+                # inside one structure: two sibling lists none of which lies in the other's moving part
+                cand = [b for b in al if m.top_of(b) == m.top_of(a) and m.can_move_same(a, b)]
             b = pick(cand)
             if b is None:
                 continue
             # prefer list heads as source
             if r.random() < 0.7:
-                a = m.sibs(a)[0]
+                h = m.sibs(a)[0]
+                if m.top_of(h) != m.top_of(b) or m.can_move_same(h, b):
+                    a = h
             lines.append("n move %d %d" % (a, b))
             m.move(a, b)
         elif kind in ("clone", "clonetree", "clonelist"):
